@@ -66,7 +66,7 @@ def _common_edits(item_text, unit):
     unit.drops["tracing_invocations_dropped"] += n
     e2 = rslex.vis_edits(toks)
     unit.drops["visibility_qualifiers_stripped"] += len(e2)
-    e3 = rslex.cfg_feature_edits(toks, OFF_FEATURES)
+    e3 = rslex.cfg_feature_edits(toks, OFF_FEATURES, item_text)
     unit.drops["cfg_feature_elements_removed"] += len(e3)
     # cfg edits may swallow others: drop edits fully contained in a cfg edit
     keep = []
